@@ -186,6 +186,18 @@ class Pair:
                 sent = []
         elif kind == 'expire_spi':
             sent = self.ep(action[1]).expire(bytes.fromhex(action[2]), bool(action[3]))
+        elif kind == 'unsolicited_response':
+            # ['unsolicited_response', side, exchange]: the (deviant) endpoint builds, with its real keys, an empty
+            # RESPONSE of that exchange type on its first established IKE_SA - Message ID = the peer's next request ID -
+            # although no request is outstanding, and sends it
+            ep = self.ep(action[1])
+            import message as _m
+            sa = next((x for x in ep.controller.ike_sas if int(x.state) == 10), None)
+            if sa is not None:
+                with sim.as_current(ep):
+                    msg = sa.generate_response(_m.Message.Exchange(action[2]), [])
+                    data = bytes(msg.to_bytes())
+                sent = [(str(sa.my_addr), str(sa.peer_addr), data)]
         elif kind == 'mutate':
             # ['mutate', side, mutator, exchange ('init'|'auth'|'child'|'info'|None), is_request (True|False|None)]:
             # the next matching message GENERATED by that endpoint has its payload list rewritten (sim/deviant.py)
